@@ -2,6 +2,7 @@ SPECIFICATION Spec
 CONSTANTS
   W = 4
   Anns = {"both"}
+  Devs = {"all"}
   Sizes = {2}
   MaxFaults = 1
   MaxInject = 1
